@@ -339,7 +339,7 @@ fn digits(mut i: u64, radices: &[u64]) -> Vec<usize> {
     out
 }
 
-fn entry_alphabet(seed: u64, size: usize) -> Vec<E> {
+pub fn entry_alphabet(seed: u64, size: usize) -> Vec<E> {
     // a fixed, simplest-first list of entries covering every class at least once; `size` picks a prefix
     let nm = names();
     let mut v = vec![];
